@@ -239,7 +239,8 @@ struct Ctx {
 impl Ctx {
   fn finding(&mut self, f: Finding) {
     if f.kind == "divergence" { self.divergences += 1; } else { self.violations += 1; }
-    if self.findings.len() < 200 { self.findings.push(f); }
+    // a flood of one kind must not hide the other
+    if self.findings.iter().filter(|g| g.kind == f.kind).count() < 100 { self.findings.push(f); }
   }
 
   fn note_distinct(&mut self, evs: &str, stream: &[u8]) {
@@ -512,7 +513,9 @@ pub fn run(opts: &Opts) -> i32 {
   let Ctx { lean, findings, samples, distinct, foreign_by_family, .. } = cx;
   lean.finish();
 
-  // f. findings
+  // f. findings: concrete property violations first
+  let mut findings = findings;
+  findings.sort_by_key(|f| if f.kind == "property" { 0 } else { 1 });
   for (i, f) in findings.iter().enumerate() {
     let path = if i < MAX_REPLAYS {
       let p = format!("{}/finding-{}.json", out_dir, i);
